@@ -22,7 +22,7 @@ ASSUMPTIONS = [
     "exported geometry of a circle: must contain every point within 0.99 r, must not contain any point beyond r "
     "(shapely approximates discs by 64-gons)",
 ]
-OUTSIDE = ["shapely / GEOS internals and STRtree internals", "reading a network from a file as a construction route",
+OUTSIDE = ["shapely / GEOS internals and STRtree internals",
            "non-convex query polygons"]
 STUBS = ["shapely-lite", "STRtree-lite"]
 F = ["commonroad/scenario/lanelet.py:LaneletNetwork.find_lanelet_by_position", "commonroad/scenario/lanelet.py:LaneletNetwork.find_lanelet_by_shape",
@@ -122,7 +122,7 @@ LAYOUTS = {
                2: ([[10.0, 4.0], [14.0, 8.0]], [[8.0, 6.0], [12.0, 10.0]])},
 }
 LAYOUT_NAMES = list(LAYOUTS)
-ROUTES = ["from_list", "incremental", "deepcopy", "state_roundtrip"]
+ROUTES = ["from_list", "incremental", "deepcopy", "state_roundtrip", "xml_file", "protobuf_file"]
 
 
 def build_network(layout, route):
@@ -139,6 +139,27 @@ def build_network(layout, route):
         new = LaneletNetwork.__new__(LaneletNetwork)
         new.__setstate__(state)
         return new
+    if route in ("xml_file", "protobuf_file"):
+        # the network as the file readers build it (the layouts' coordinates have at most one decimal, so the XML writer's
+        # truncation to 4 decimals does not move them)
+        import commonroad.common.reader.file_reader_protobuf as rp
+        import commonroad.common.reader.file_reader_xml as rx
+        from commonroad.common.file_writer import CommonRoadFileWriter
+        from commonroad.common.util import FileFormat
+        from commonroad.planning.planning_problem import PlanningProblemSet
+        from commonroad.scenario.scenario import Scenario, ScenarioID, Tag
+
+        sc = Scenario(0.1, ScenarioID.from_benchmark_id("DEU_Muc-1_2_T-1", "2020a"))
+        sc.add_objects(net)
+        xml = route == "xml_file"
+        w = CommonRoadFileWriter(sc, PlanningProblemSet(), "a", "b", "c", {Tag.URBAN}, None, 4, FileFormat.XML if xml else FileFormat.PROTOBUF)._file_writer
+        if not xml:
+            w._commonroad_msg = type(w._commonroad_msg)()
+        w._write_header()
+        w._add_all_objects_from_scenario()
+        data = w._dump() if xml else w._commonroad_msg.SerializeToString()
+        sc2, _ = (rx.XMLFileReader(data) if xml else rp.ProtobufFileReader(data)).open()
+        return sc2.lanelet_network
     return net
 
 
@@ -153,7 +174,7 @@ def in_lanelet(V, layout, lid, p):
 
 
 def _mk_position(layout):
-    @obligation("C06", f"position.{layout}", functions=F, bounds=f"layout '{layout}', all four construction routes, symbolic query point")
+    @obligation("C06", f"position.{layout}", functions=F, bounds=f"layout '{layout}', all six construction routes (from a list, lanelet by lanelet, deep copy, pickle state, read from an XML file, read from a protobuf file), symbolic query point")
     def ob(V):
         warnings.filterwarnings("ignore")
         net = build_network(layout, ROUTES[V.choice("route", len(ROUTES))])
